@@ -11,6 +11,7 @@
     global random state and whichever z3 models the backend finds."""
 import json
 import multiprocessing as mp
+from harness.par import RobustPool
 import random
 
 from harness.common import Check, NPROC, chunks, write_ndjson, canon
@@ -62,7 +63,7 @@ def run(tier, seed):
                           f"randint({b['a']},{b['b']}) over a raw source of size {b['D']} with draws {b['raws']}: "
                           f"expected {b['expected']}, observed {b['observed']}", b)
     jobs = [(i, seed * 100 + i, 400 if tier == "quick" else 2000) for i in range(16 if tier == "quick" else 64)]
-    with mp.get_context("fork").Pool(NPROC) as pool:
+    with RobustPool(NPROC) as pool:
         precs = pool.map(GR.record_real_prng, jobs)
     path = chk.dir / "prng.ndjson"
     write_ndjson(path, precs)
@@ -95,7 +96,7 @@ def run(tier, seed):
         if opts["max_steps"] is None and opts["p_uniq"] == 0:
             opts["max_steps"] = 6
         gjobs.append((i, pname, seed * 100000 + i, opts))
-    with mp.get_context("fork").Pool(NPROC) as pool:
+    with RobustPool(NPROC) as pool:
         runs = pool.map(GR.run_generate, gjobs, chunksize=8)
     ok_runs = [r for r in runs if r["status"] == "ok"]
     chk.extra["runs_that_modified_the_callers_initial_blocks (diagnostic)"] = sum(bool(r.get("callers_initial_blocks_modified")) for r in runs)
@@ -169,7 +170,7 @@ def run(tier, seed):
     zjobs = []
     for s in range(3 if tier == "quick" else 12):
         zjobs += [(seed * 10 + s, 1, 1), (seed * 10 + s, 424242, 977)]
-    with mp.get_context("fork").Pool(NPROC) as pool:
+    with RobustPool(NPROC) as pool:
         zouts = pool.map(z3_generate, zjobs)
     for a, b in zip(zouts[0::2], zouts[1::2]):
         rep += 1
